@@ -41,7 +41,9 @@ class Unsupported:
 
 
 UNITS = [units.g, units.mg / units.L, units.fL, units.mmol / units.L ** 2, units.nanometer,
-         units.nanogram / units.mL, units.dimensionless]
+         units.nanogram / units.mL, units.dimensionless,
+         # purely reciprocal units print as '1 / second': with a nan magnitude 'nan / second'
+         1 / units.s, units.s ** -2, units.ampere, units.newton * units.attogram]
 NUMS = [0, -7, 2 ** 53 - 1, 1.5, -2.25e-7, 1e300, 5e-324, 3]
 STRS = ['', 'abc', 'hi [there]!', '!units', 'x]', '!units[', 'é\n"q"']
 FIN_MAGS = [0, -1.5, 1e300, 5e-324, 2 ** 53 - 1, 3, 0.1]
